@@ -51,7 +51,7 @@ var deniedPairs = [][2]string{{"db2", "secret"}, {"secret", "keys"}, {"default",
 var allowedPairs = [][2]string{{"db1", "cpu"}, {"db1", "mem"}}
 
 var trefStyles = []string{"plain", "dq", "bt", "dq-m", "dq-db", "bt-m", "spaced", "cmt", "bare", "bare-dq", "bare-bt"}
-var scanStyles = []string{"sq", "dq", "bt", "E", "e", "dollar", "dtag", "sq-nows", "dq-nows"}
+var scanStyles = []string{"sq", "dq", "bt", "E", "e", "dollar", "dtag", "dtag-d2", "sq-nows", "dq-nows"}
 var pathForms = []string{"abs-glob", "abs-file", "rel-glob", "wild-db", "dotdot", "abs-hour"}
 var fnQuotings = []string{"plain", "plain", "upper", "dq", "bt", "main", "sysmain"}
 var argStyles = []string{"str", "str", "list", "E", "dollar"}
@@ -77,7 +77,7 @@ func isFromGroup(shape string) bool {
 	return true
 }
 
-var litStyles = []string{"sq", "sq-bs", "sq-dbl", "E", "E-bsq", "E-bsbs", "dq-alias", "dq-alias-bs", "dollar", "dtag", "dollar-q", "dtag-uni", "sq-bsbs", "E-lower-bsbs"}
+var litStyles = []string{"sq", "sq-bs", "sq-dbl", "E", "E-bsq", "E-bsbs", "dq-alias", "dq-alias-bs", "dollar", "dtag", "dtag-d2", "dollar-q", "dtag-uni", "sq-bsbs", "E-lower-bsbs"}
 var litContents = []string{"a", "a", "a", "read_parquet", "__STR_0__", "__IDENT_0__", "__FROM_MASK_0__", "--", "/*", "*/", ";", "from x", "'", "it''s", "é日"}
 var tails = []string{"'x'='x'", "'x' = 'x'", `"time" IS NOT NULL`, "'--' <> 'a'", "1=1 -- '", "1=1 /* ' */", "$$x$$=$$x$$", "E'x'=E'x'", `1=1 -- "`, "'/*' <> '*/'"}
 var comments = []string{"/* c */", "/**/", "/* it's */", `/* " */`, "/* /* n */ */", "-- c\n", "-- it's\n", "--\"\n", "-- c\r", "--\r", "/* -- */", "-- /*\n", "/* $$ */", "/* __STR_0__ */", "-- from db2.secret\n", "/* EXTRACT( */", "--read_parquet\r", "/* read_parquet */", "-- read_parquet\n"}
@@ -206,6 +206,8 @@ func renderSrc(s src, fnws string) (string, bool) {
 			return "$$" + p + "$$", false
 		case "dtag":
 			return "$p$" + p + "$p$", false
+		case "dtag-d2": // tag with a digit as its second character
+			return "$a1$" + p + "$a1$", false
 		}
 		return "'" + p + "'", false
 	case "func":
@@ -271,6 +273,8 @@ func renderLit(style, content string) string {
 		return "$$" + content + "$$"
 	case "dtag":
 		return "$t$" + content + "$t$"
+	case "dtag-d2":
+		return "$_0$" + content + "$_0$"
 	case "dollar-q":
 		return "$$" + content + "'$$"
 	case "dtag-uni":
@@ -1059,7 +1063,7 @@ func srcClass(s src) string {
 		return "table function " + s.Fn + "()" + q
 	case "scan":
 		names := map[string]string{"sq": "single-quoted", "sq-nows": "single-quoted", "dq": "double-quoted", "dq-nows": "double-quoted", "bt": "backtick-quoted",
-			"E": "E-string", "e": "E-string", "dollar": "dollar-quoted", "dtag": "dollar-quoted"}
+			"E": "E-string", "e": "E-string", "dollar": "dollar-quoted", "dtag": "dollar-quoted", "dtag-d2": "dollar-quoted (tag with a digit)"}
 		return "replacement scan of a " + names[s.Style] + " path"
 	case "sqlstr":
 		fn := s.Fn
